@@ -45,6 +45,14 @@ def make(rep, ranks, n, t, ishuf=False, trev=False):
     return df
 
 
+LONG_NAMES = [("case_id", "reading_id", "dim_id"), ("inst", "tp", "var")]
+LONG_CALLS = [0]
+
+
+def long_names(obj):
+    return obj.attrs.get("c15names", LONG_NAMES[0])
+
+
 def convert(obj, frm, to):
     from sktime.utils import data_processing as D
     if frm in ("ns", "na") and to == "np3":
@@ -60,9 +68,17 @@ def convert(obj, frm, to):
     if frm == "np3" and to == "mi":
         return D.from_3d_numpy_to_multi_index(obj, instance_index="inst", time_index="tp")
     if frm in ("ns", "na") and to == "long":
-        return D.from_nested_to_long(obj, "case_id", "reading_id", "dim_id")
+        # the default column names and user-chosen ones alternate
+        LONG_CALLS[0] += 1
+        names = LONG_NAMES[LONG_CALLS[0] % 2]
+        out = D.from_nested_to_long(obj, *names)
+        out.attrs["c15names"] = names
+        return out
     if frm == "long" and to == "ns":
-        return D.from_long_to_nested(obj)
+        a, b, c = long_names(obj)
+        if (a, b, c) == LONG_NAMES[0]:
+            return D.from_long_to_nested(obj)
+        return D.from_long_to_nested(obj, instance_column_name=a, time_column_name=b, dimension_column_name=c)
     if frm == "ns" and to == "t2":
         return D.from_nested_to_2d_array(obj)
     if frm == "np3" and to == "t2":
@@ -99,13 +115,14 @@ def read(obj, rep, cfg):
                 toks += [float(v) for v in sub[c].values]
         shape = [len(insts), obj.shape[1], len(obj) // max(1, len(insts))]
     elif rep == "long":
-        ids = list(dict.fromkeys(obj["dim_id"]))
+        case_id, _, dim_id = long_names(obj)
+        ids = list(dict.fromkeys(obj[dim_id]))
         names = [rank_of(c) for c in ids]
-        insts = list(dict.fromkeys(obj["case_id"]))
+        insts = list(dict.fromkeys(obj[case_id]))
         toks = []
         for i in insts:
             for c in ids:
-                sub = obj[(obj["case_id"] == i) & (obj["dim_id"] == c)]
+                sub = obj[(obj[case_id] == i) & (obj[dim_id] == c)]
                 toks += [float(v) for v in sub["value"].values]
         shape = [len(insts), len(ids), len(obj) // max(1, len(insts) * len(ids))]
     elif rep == "t2":
